@@ -92,6 +92,7 @@ def _one_run(out, prog, strat, drive, cuts, mix, tag, log_level=None, prev=None,
     import json
     import zlib
     # (costs a quarter of a second: in ~4% of the warn-and-pause cases, chosen by a hash of the case)
+    resume_at_clock = zlib.crc32(json.dumps([prog, cuts], sort_keys=True).encode()) % 2 == 0
     eager = pause and zlib.crc32(json.dumps([prog, drive, cuts, mix], sort_keys=True).encode()) % 24 == 5
 
     def sut_action(m, a):
@@ -161,11 +162,16 @@ def _one_run(out, prog, strat, drive, cuts, mix, tag, log_level=None, prev=None,
                     out.label("paused-by-fault")
                     if c[0] == "start":
                         cmds.append(["start"])
-                    else:
+                    elif resume_at_clock:
                         # resume with an inclusive bound equal to the clock: exactly the remaining events of this
                         # instant run (a zero-length run is not a no-op when events are pending at the clock)
                         cmds.insert(i, ["run", 0])
                         out.label("resumed-with-bound-equal-to-clock")
+                    else:
+                        # resume with a plain start(): it runs to the END of the replication, whatever the bound
+                        # of the interrupted run was
+                        cmds.insert(i, ["start"])
+                        out.label("bounded-run-resumed-with-start")
             # compare after every command
             if h.model.trace != ref.trace:
                 j = 0
